@@ -33,3 +33,12 @@ package warning
 //@   assigns nothing
 //@   ensures [new] isWarning(ret) && unbox(ret, *Warning) != nil && fresh(unbox(ret, *Warning)) &&
 //@       len(unbox(ret, *Warning).errs) == 1 && unbox(ret, *Warning).errs[0] == err
+
+//@ func (*Warning).Wrapf
+//@   requires w != nil
+//@   assigns w.message
+//@   ensures [same-or-new] ret != nil && (ret == w || fresh(ret))
+
+//@ func New
+//@   assigns nothing
+//@   ensures [new] ret != nil && fresh(ret) && ret.message == msg && ret.errs == errs
